@@ -44,6 +44,7 @@ type report struct {
 	ChanWrapped []string          `json:"chan_wrapped"`
 	Gosched     []string          `json:"gosched"`
 	Knob        map[string]string `json:"knob"`
+	Finalizers  []string          `json:"finalizers"`     // runtime.SetFinalizer calls redirected to the simulator
 	Timers      []string          `json:"timers"`         // real-clock waits the simulator does not own
 	CLI         []string          `json:"cli_redirected"` // process-global facilities redirected in cmd/php-parser
 	CLIMain     bool              `json:"cli_main"`       // func main found and exported as ZZMain
@@ -330,7 +331,9 @@ func processFile(root, path string, isCmd bool) error {
 			return true
 		})
 	}
-	// runtime.Gosched() -> zzsim.Gosched()
+	// runtime.Gosched() -> zzsim.Gosched(), runtime.SetFinalizer -> zzsim.SetFinalizer
+	keepRuntime := false
+	_ = keepRuntime
 	ast.Inspect(f, func(n ast.Node) bool {
 		if c, ok := n.(*ast.CallExpr); ok {
 			if se, ok := c.Fun.(*ast.SelectorExpr); ok && se.Sel.Name == "Gosched" {
@@ -590,7 +593,7 @@ func generate(root, dir string) error {
 		b.WriteString("},\n")
 	}
 	b.WriteString("}\n\n// markSites marks the sites of one class for the site-biased scheduler.\nfunc markSites(class string) {\n\tfor i := range zzsim.SiteMark {\n\t\tzzsim.SiteMark[i] = 0\n\t}\n\tfor _, r := range siteClassRanges[class] {\n\t\tfor i := r[0]; i <= r[1] && i < zzsim.MaxSites; i++ {\n\t\t\tzzsim.SiteMark[i] = 1\n\t\t}\n\t}\n}\n")
-	fmt.Fprintf(&b, "\nconst totalSites = %d\n", len(rep.Sites))
+	fmt.Fprintf(&b, "\nconst totalSites = %d\n\n// the tree registers finalizers: automatic GC is switched off, forced GCs place them\nconst usesFinalizers = %v\n", len(rep.Sites), len(rep.Finalizers) > 0)
 	return os.WriteFile(filepath.Join(dir, "sites_gen.go"), b.Bytes(), 0644)
 }
 
